@@ -15,9 +15,13 @@ Dict(e) == [s \in {e.strings[i][1] : i \in 1..Len(e.strings)} |->
 Env(e) == [x \in DOMAIN e.env |-> e.env[x]]
 Cnt(e, v) == IF v \in DOMAIN e.getcounts THEN e.getcounts[v] ELSE 0
 
-WellFormed(e) == \A i \in 1..Len(e.strings) : e.strings[i][1] = Spell(e.strings[i][2])
+IsNilEnv(e) == "kind" \in DOMAIN e /\ e.kind = "nilenv"
+WellFormed(e) == IsNilEnv(e) \/ \A i \in 1..Len(e.strings) : e.strings[i][1] = Spell(e.strings[i][2])
 
+\* two pipelines interpolated one after the other with NO caller environment: each starts from an empty one
+NilEnvOK(e) == ~e.panic /\ ~e.err /\ e.a = "a " \o e.val /\ e.b = "b unset |"
 EventOK(e) ==
+    IF IsNilEnv(e) THEN NilEnvOK(e) ELSE
     LET D == Dict(e)
         env == Env(e)
         occ == Strs(e.before, "pipeline")
